@@ -252,7 +252,11 @@ func checkCopy(t hx.TB, test, where, ctx string, u user) {
 // other memory: helper records (*ir.Case, *ir.Incoming, *ir.Clause, *ir.OperandBundle) by copies, slices
 // of values by copies of the slice. The instruction means what it meant before; it returns how many lists
 // were replaced. A client that rebuilds the cases of a switch or the incoming list of a phi does this.
-func relistOperands(u any) int {
+//
+// mode 0 replaces every list and every record; mode 1 keeps the lists and their first record and replaces the
+// other records in place (`phi.Incs[1] = ir.NewIncoming(v, pred)`); mode 2 makes new lists that keep the first
+// record and replace the others.
+func relistOperands(u any, mode int) int {
 	n := 0
 	var rec func(v reflect.Value, depth int)
 	rec = func(v reflect.Value, depth int) {
@@ -276,10 +280,13 @@ func relistOperands(u any) int {
 			if !valueList && !(recordList && depth < 2) {
 				continue
 			}
+			if mode != 0 && (!recordList || fv.Len() < 2) {
+				continue
+			}
 			nl := reflect.MakeSlice(f.Type, fv.Len(), fv.Len())
 			for k := 0; k < fv.Len(); k++ {
 				e := fv.Index(k)
-				if recordList && !e.IsNil() {
+				if recordList && !e.IsNil() && (mode == 0 || k > 0) {
 					c := reflect.New(et.Elem())
 					c.Elem().Set(e.Elem())
 					rec(c.Elem(), depth+1)
@@ -287,7 +294,11 @@ func relistOperands(u any) int {
 				}
 				nl.Index(k).Set(e)
 			}
-			fv.Set(nl)
+			if mode == 1 {
+				reflect.Copy(fv, nl)
+			} else {
+				fv.Set(nl)
+			}
 			n++
 		}
 	}
@@ -306,10 +317,16 @@ func checkAfterRelisting(t hx.TB, test, where, ctx string, u user) {
 	if p := lx.Guard(func() { u.Operands(); p0 = u.LLString() }); p != nil {
 		return // judged by checkUser
 	}
-	if relistOperands(u) == 0 {
+	for _, mode := range []int{1, 2, 0} {
+		checkAfterRelistingMode(t, test, where, ctx, u, p0, mode)
+	}
+}
+
+func checkAfterRelistingMode(t hx.TB, test, where, ctx string, u user, p0 string, mode int) {
+	if relistOperands(u, mode) == 0 {
 		return
 	}
-	hx.Hist("relisted_users")
+	hx.Hist([]string{"relisted_users", "relisted_users/records_after_the_first_replaced_in_place", "relisted_users/new_lists_that_keep_the_first_record"}[mode])
 	var ops []*value.Value
 	var p1 string
 	if p := lx.Guard(func() { ops = u.Operands(); p1 = u.LLString() }); p != nil {
